@@ -1,6 +1,6 @@
 SPECIFICATION Spec
-CONSTANT Cfg <- MCCfg3222
-CONSTANT Extra = 0
+CONSTANT Cfg <- MCCfg2212
+CONSTANT Extra = 2
 INVARIANT TypeOK
 INVARIANT Protocol
 INVARIANT MaskSound
